@@ -233,6 +233,21 @@ impl Iterator for Probe {
     }
 }
 
+/// Owning probe of zero-sized elements (payload 0).
+pub struct ZProbe(pub ProbeCore);
+
+impl Iterator for ZProbe {
+    type Item = ZElem;
+
+    fn next(&mut self) -> Option<ZElem> {
+        self.0.step().map(|_| ZElem)
+    }
+
+    fn size_hint(&self) -> (usize, Option<usize>) {
+        self.0.size_hint()
+    }
+}
+
 /// Borrowing probe: the i-th `S` entry yields a reference to `backing[i]`.
 pub struct RefProbe<'a, T> {
     pub core: ProbeCore,
